@@ -194,3 +194,9 @@ From Scrapli Require Import NcReadSrc.
 Theorem C02_read_round_is_source : nc_read_table_ok = true.
 Proof. exact nc_read_round_is_source. Qed.
 Print Assumptions C02_read_round_is_source.
+
+(* record1dot0 and recordRPCErrors as translated: the steps of Netconf.record10 in order; a failure
+   marker ANYWHERE in the bytes given marks the response failed (Netconf.carries_marker) *)
+Theorem C02_record_rest_is_source : record_rest_ok = true.
+Proof. exact record_rest_is_source. Qed.
+Print Assumptions C02_record_rest_is_source.
